@@ -113,6 +113,8 @@ type script struct {
 	DieExitCode   int            `json:"die_exit_code"`
 	// client: pause after each request read from stdin (paces the runner's hand-over)
 	ReadDelayMS int `json:"read_delay_ms"`
+	// server: does not react to SIGTERM/SIGINT (logs that it was asked, then carries on); ends by itself after 60 s
+	IgnoreSigterm bool `json:"ignore_sigterm"`
 	StartDelayMS int      `json:"start_delay_ms"`
 	StopDelayMS  int      `json:"stop_delay_ms"`
 }
@@ -373,6 +375,16 @@ func runServer(sc *script) int {
 	}
 	ctx, cancel := signal.NotifyContext(context.Background(), syscall.SIGTERM, syscall.SIGINT)
 	defer cancel()
+	if sc.IgnoreSigterm {
+		asked := ctx
+		var cancel2 context.CancelFunc
+		ctx, cancel2 = context.WithTimeout(context.Background(), 60*time.Second) // safety net only
+		defer cancel2()
+		go func() {
+			<-asked.Done()
+			logEv("server_stop_signal", map[string]any{"key": key, "ignored": true})
+		}()
+	}
 	if sc.Garbage {
 		_, _ = os.Stdout.Write([]byte{0, 0, 0, 5, 0xff, 0xff, 0xff, 0xff, 0xff})
 		<-ctx.Done()
